@@ -21,4 +21,4 @@ Definition c12_kf_num (S : SOps) (n m : nat) (H R y : lmx S) (bits : list bool)
   (map (fun c => (gmean c, gcov c)) (fst (r_out r)), snd (r_out r),
    @c_kf_get_lik (c12_O S) m (r_st r), r_log r).
 
-Extraction "C12_model.ml" run_kf_cfg run_ukf_cfg run_sukf_cfg run_gl_cfg run_boot_cfg run_gpf_cfg run_sis_seq c12_kf_num.
+Extraction "C12_model.ml" run_kf_steps run_ukf_steps run_sukf_steps run_gl_steps run_boot_steps run_gpf_steps run_sis_steps c12_kf_num.
